@@ -33,7 +33,7 @@
 (*            sequence of allowed policy names), hasEp/ep (eviction-       *)
 (*            priority annotation), hasLp/lp (priority label), used (pod   *)
 (*            usage metric, 0 if none), req (request in the resource of    *)
-(*            the pod's priority class)                                    *)
+(*            the pod's priority class), breq (its batch-cpu request)      *)
 (*                                                                         *)
 (* Two layers:                                                             *)
 (*  property level  PropSeen / PropEvict / PropRet : what every call on    *)
@@ -105,12 +105,13 @@ Enabled(a) == a.evictLabel = "true"
 
 LexLess(a, b) == \E i \in 1..Len(a) : a[i] < b[i] /\ \A j \in 1..(i - 1) : a[j] = b[j]
 
-\* usage/request ratio of the best-effort cpu strategy (0 when there is no request), compared exactly
+\* usage/request ratio of the best-effort cpu strategy (request = the pod's batch-cpu request; ratio 0 when there
+\* is none), compared exactly
 RatioGreater(a, b) ==
-  LET na == IF a.req > 0 THEN a.used ELSE 0
-      da == IF a.req > 0 THEN a.req ELSE 1
-      nb == IF b.req > 0 THEN b.used ELSE 0
-      db == IF b.req > 0 THEN b.req ELSE 1
+  LET na == IF a.breq > 0 THEN a.used ELSE 0
+      da == IF a.breq > 0 THEN a.breq ELSE 1
+      nb == IF b.breq > 0 THEN b.used ELSE 0
+      db == IF b.breq > 0 THEN b.breq ELSE 1
   IN  na * db > nb * da
 
 \* x strictly precedes y in the published order of task t
